@@ -150,7 +150,18 @@ def r14_2(ctx):
         ctx.check("limit_time" in src.show(), "limit-flows", r.loc(rd[0]), "read() is called on the communicator that limit_time returned",
                   "read() is not called on the time-limited communicator (%s)" % src.show()[:160])
     if not found:
-        ctx.bad("limit-must-pass", r.where(), "no switch on testcase.config.timeout between communicate_start and read")
+        # is there a switch on something *derived* from config.timeout through a partial adaptor?
+        why = "no switch on testcase.config.timeout between communicate_start and read"
+        for sb, st in switches(r):
+            ve, rv = variant_edges(r, sb)
+            if ve is None or set(ve) != {"None", "Some"} or not r.dominates(cs[0], sb):
+                continue
+            tree = orr.place(rv["place"])
+            if any(n.kind == "field" and n.a == "timeout" for n in tree.walk()) and tree.has_call("Option::filter", "Option::and_then", "Option::take_if", "Option::xor", "Option::zip"):
+                why = ("the limit handed to limit_time is first passed through %s: for some configured timeouts (e.g. zero = `no time left` as computed by the "
+                       "stateful executor once the document deadline has passed) no limit is applied at all and the command runs unbounded"
+                       % sorted({method_name(c) for c in tree.call_names() if method_name(c).startswith("Option::")}))
+        ctx.bad("limit-must-pass", r.where(), why)
 
 
 def r14_3(ctx):
